@@ -483,6 +483,9 @@ class CompiledChemicals(Chemicals):
         
         """
         IDs = tuple(IDs)
+        owner = self.__dict__.get(name)
+        if isinstance(owner, Chemical):
+            raise ValueError(f"name '{name}' already in use by {repr(owner)}")
         if composition is None:
             composition = np.ones(len(IDs))
         elif len(composition) != len(IDs): 
